@@ -119,6 +119,10 @@ def gen_source(rnd, size_class, allow_empty, allow_extreme=True):
         "size_class": size_class,
         "style": style,
     }
+    if rnd.random() < 0.04 and npos and nneg:
+        # the two classes hold the very same values (a model that cannot tell them apart): every score is tied across classes
+        k_ = min(npos, nneg)
+        spec["neg"] = list(spec["pos"][:k_]) + list(spec["neg"][k_:])
     if spec["dtype"] == "float64" and style in ("unique", "ties") and rnd.random() < 0.04 and allow_extreme:
         # magnitudes at which sums, squares and differences start to lose precision or overflow
         kind_ = rnd.choice(["huge", "tiny", "offset", "negative_huge"])
